@@ -14,7 +14,8 @@ from ..bags import match, placement_writers, property_readers, readers_in, row_w
 from ..cfg import CFG
 from ..core import AnalysisError, Repo, Report, call_name, calls_in, kwarg, norm, walk_local
 from ..dataflow import DefUse
-from .util import canon, cguards
+from .util import canon, cguards, ckey as ckey8, stmt_of as stmt_of8
+import re
 from ..pipeline import STAGE_CTORS, compile_funcs, mains, top_statements
 
 # keys written on combinator placements that are deliberately not emitted (consumed by layout, or documentation only)
@@ -179,6 +180,23 @@ def run(repo: Repo, rep: Report, tier: str) -> None:
             rep.check(ok, "C07-R3", f"a planned wire is skipped only when an endpoint entity is missing (`continue` #{n_skip})",
                       "; ".join(g for g, p in gs if p) if ok else f"wire dropped under {[g for g, p in gs if p]}: part of the planned circuit is not in the blueprint", mc.loc(n))
     rep.floor("C07-R3", "skip sites in the wire materialiser", n_skip, 1)
+    # the plan's own wire list: a wire handed to the plan is recorded; it may be dropped as a duplicate only when both ends, both connector sides and the colour agree
+    awc = repo.func("LayoutPlan.add_wire_connection")
+    gaw = CFG(awc.node)
+    apps3 = [s for s in gaw.stmts() if isinstance(s, ast.Expr) and isinstance(s.value, ast.Call) and call_name(s.value) == "append" and norm(s.value.func.value) == "self.wire_connections"]
+    if not apps3:
+        raise AnalysisError("C07-R3: LayoutPlan.add_wire_connection does not append to self.wire_connections")
+    from ..cfg import ENTRY as _EN3, EXIT as _EX3
+    leak3 = gaw.reaches_avoiding(_EN3, {id(_EX3)}, lambda n: any(n is a_ for a_ in apps3), start_inclusive=False)
+    if not leak3:
+        rep.ok("C07-R3", "LayoutPlan.add_wire_connection records every wire it is given", "append on every path", awc.loc())
+    else:
+        IDENT3 = {"source_entity_id", "sink_entity_id", "wire_color", "source_side", "sink_side"}
+        exits3 = [s for s in gaw.stmts() if isinstance(s, (ast.Return, ast.Continue))]
+        cmp_fields = {x.attr for s in gaw.stmts() if isinstance(s, ast.If) for x in ast.walk(s.test) if isinstance(x, ast.Attribute)}
+        miss3 = sorted(IDENT3 - cmp_fields)
+        rep.check(not miss3, "C07-R3", "LayoutPlan.add_wire_connection records every wire it is given", "a wire is skipped only as an exact duplicate (ends, sides, colour)" if not miss3 else
+                  f"a wire can be dropped although it differs from the planned ones in {miss3}: output->input and input->input wires between the same two combinators are different wires", awc.loc(exits3[0]) if exits3 else awc.loc())
     ver = [n for n in walk_local(em.node) if isinstance(n, ast.Assign) and norm(n.targets[0]) == "self.blueprint.version"]
     rep.check(bool(ver) and norm(ver[0].value) == "(2, 0)", "C07-R3", "blueprint version is (2, 0)", norm(ver[0]) if ver else "not set", em.loc())
     ce = repo.func("PlanEntityEmitter.create_entity")
@@ -338,3 +356,42 @@ def run(repo: Repo, rep: Report, tier: str) -> None:
             rep.check(not bad7, "C07-R7", f"{f7.short}: loop over `{canon(f7).text(lp.iter)[:60] if isinstance(lp, ast.For) else 'while'}` visits every element",
                       "no early exit" if not bad7 else f"`{type(bad7[0]).__name__.lower()}` at line {bad7[0].lineno} leaves the loop: later elements are never configured", f7.loc(bad7[0] if bad7 else lp))
     rep.floor("C07-R7", "configuring loops in the emission package", n7, 5)
+
+    # ---------------- R8 ---------------------------------------------------------------
+    rep.rule("C07-R8", "standard output carries the result and nothing else (at the default log level): in the front ends every write to stdout is the result itself or sits under a "
+             "verbosity test; log records never go to stdout (no `stream=sys.stdout` in logging.basicConfig, no StreamHandler on stdout) — a warning printed ahead of the blueprint "
+             "makes the printed text undecodable")
+    n8 = 0
+    for mf, cf in mains(repo):
+        cm8 = canon(mf)
+        for c in calls_in(mf.node):
+            nm = call_name(c)
+            if nm not in ("echo", "print", "secho"):
+                continue
+            to_err = any(k.arg == "err" and isinstance(k.value, ast.Constant) and k.value.value is True for k in c.keywords) or any(
+                k.arg == "file" and "stderr" in norm(k.value) for k in c.keywords)
+            if to_err:
+                continue
+            n8 += 1
+            arg = cm8.text(c.args[0]) if c.args else ""
+            is_result = bool(re.search(rf"\b{cf.name}\(", arg)) and "[1]" in arg
+            gs8 = cguards(mf, stmt_of8(mf, c))
+            verbose = any(pol and ("log_level" in g) for g, pol in gs8)
+            rep.check(is_result or verbose, "C07-R8", f"{mf.short}: stdout write `{nm}({ckey8(mf, c.args[0]) if c.args else ''})`",
+                      "the result" if is_result else ("only in verbose mode" if verbose else
+                      "written to stdout at the default log level next to the blueprint: the printed text no longer decodes"), mf.loc(c))
+    rep.floor("C07-R8", "stdout writes in the front ends", n8, 4)
+    n8b = 0
+    for m8 in repo.modules.values():
+        for c in [x for x in ast.walk(m8.tree) if isinstance(x, ast.Call)]:
+            t8 = norm(c.func)
+            if t8 in ("logging.basicConfig", "basicConfig"):
+                n8b += 1
+                st8 = [k for k in c.keywords if k.arg == "stream"]
+                ok8 = not st8 or "stderr" in norm(st8[0].value)
+                rep.check(ok8, "C07-R8", f"{m8.rel}: logging.basicConfig writes to stderr", "default stream (stderr)" if not st8 else norm(st8[0].value) if ok8 else
+                          f"stream={norm(st8[0].value)}: compiler warnings (they go through the root logger) are printed on stdout ahead of the blueprint", f"{m8.rel}:{c.lineno}")
+            elif t8.endswith("StreamHandler") and c.args and "stdout" in norm(c.args[0]):
+                n8b += 1
+                rep.bad("C07-R8", f"{m8.rel}: log handler on stdout", f"`{norm(c)[:70]}`", f"{m8.rel}:{c.lineno}")
+    rep.floor("C07-R8", "logging configuration calls", n8b, 2)
